@@ -9,17 +9,181 @@ mod verif_kani {
 
     const DGRAM: usize = 40;
 
-    // @HARNESS id=C04.alc.parse_alc_pkt_total tier=quick kind=Kb props=C04 bound="every datagram of 0..=40 bytes, all six codepoints, extension walk unwound 11 times" timeout=1800
-    /// parse_alc_pkt (LCT header, codec dispatch, EXT_FTI of the codec, EXT_CENC, EXT_FDT) returns Ok or Err
-    /// on every byte string; an Ok packet satisfies the offsets every later reader indexes with.
+    /// parse_alc_pkt (LCT header, codec dispatch, EXT_FTI of the codec, EXT_CENC, EXT_FDT) and the readers that
+    /// run next on an accepted packet (EXT_TIME, payload id) return Ok or Err on every byte string; an Ok
+    /// packet satisfies the offsets every later reader indexes with.  Split by codepoint to run in parallel.
+    // @HARNESS id=C04.alc.parse_alc_pkt_total.cp0 tier=thorough kind=Kb props=C04 bound="every datagram of 0..=40 bytes with codepoint 0 (No-Code); extension walk unwound 11 times" timeout=2400
     #[cfg(kani)]
     #[kani::proof]
     #[kani::unwind(12)]
     #[kani::stub(alloc::fmt::format, stub_format)]
     #[kani::stub(crate::tools::error::FluteError::new, stub_flute_error_new)]
-    fn parse_alc_pkt_total() {
-        h_parse_alc_pkt_total(kani::any(), kani::any());
+    fn parse_alc_pkt_total_cp0() {
+        h_parse_alc_pkt_total_cp0(kani::any(), kani::any());
     }
+    pub fn h_parse_alc_pkt_total_cp0(buf: [u8; DGRAM], n: usize) {
+        vk_assume!(buf[3] == 0);
+        h_parse_alc_pkt_total(buf, n);
+    }
+
+    // @HARNESS id=C04.alc.parse_alc_pkt_total.cp1 tier=thorough kind=Kb props=C04 bound="every datagram of 0..=40 bytes with codepoint 1 (Raptor); extension walk unwound 11 times" timeout=2400
+    #[cfg(kani)]
+    #[kani::proof]
+    #[kani::unwind(12)]
+    #[kani::stub(alloc::fmt::format, stub_format)]
+    #[kani::stub(crate::tools::error::FluteError::new, stub_flute_error_new)]
+    fn parse_alc_pkt_total_cp1() {
+        h_parse_alc_pkt_total_cp1(kani::any(), kani::any());
+    }
+    pub fn h_parse_alc_pkt_total_cp1(buf: [u8; DGRAM], n: usize) {
+        vk_assume!(buf[3] == 1);
+        h_parse_alc_pkt_total(buf, n);
+    }
+
+    // @HARNESS id=C04.alc.parse_alc_pkt_total.cp2 tier=thorough kind=Kb props=C04 bound="every datagram of 0..=40 bytes with codepoint 2 (RS GF(2^m)); extension walk unwound 11 times" timeout=2400
+    #[cfg(kani)]
+    #[kani::proof]
+    #[kani::unwind(12)]
+    #[kani::stub(alloc::fmt::format, stub_format)]
+    #[kani::stub(crate::tools::error::FluteError::new, stub_flute_error_new)]
+    fn parse_alc_pkt_total_cp2() {
+        h_parse_alc_pkt_total_cp2(kani::any(), kani::any());
+    }
+    pub fn h_parse_alc_pkt_total_cp2(buf: [u8; DGRAM], n: usize) {
+        vk_assume!(buf[3] == 2);
+        h_parse_alc_pkt_total(buf, n);
+    }
+
+    // @HARNESS id=C04.alc.parse_alc_pkt_total.cp5 tier=thorough kind=Kb props=C04 bound="every datagram of 0..=40 bytes with codepoint 5 (RS GF(2^8)); extension walk unwound 11 times" timeout=2400
+    #[cfg(kani)]
+    #[kani::proof]
+    #[kani::unwind(12)]
+    #[kani::stub(alloc::fmt::format, stub_format)]
+    #[kani::stub(crate::tools::error::FluteError::new, stub_flute_error_new)]
+    fn parse_alc_pkt_total_cp5() {
+        h_parse_alc_pkt_total_cp5(kani::any(), kani::any());
+    }
+    pub fn h_parse_alc_pkt_total_cp5(buf: [u8; DGRAM], n: usize) {
+        vk_assume!(buf[3] == 5);
+        h_parse_alc_pkt_total(buf, n);
+    }
+
+    // @HARNESS id=C04.alc.parse_alc_pkt_total.cp6 tier=thorough kind=Kb props=C04 bound="every datagram of 0..=40 bytes with codepoint 6 (RaptorQ); extension walk unwound 11 times" timeout=2400
+    #[cfg(kani)]
+    #[kani::proof]
+    #[kani::unwind(12)]
+    #[kani::stub(alloc::fmt::format, stub_format)]
+    #[kani::stub(crate::tools::error::FluteError::new, stub_flute_error_new)]
+    fn parse_alc_pkt_total_cp6() {
+        h_parse_alc_pkt_total_cp6(kani::any(), kani::any());
+    }
+    pub fn h_parse_alc_pkt_total_cp6(buf: [u8; DGRAM], n: usize) {
+        vk_assume!(buf[3] == 6);
+        h_parse_alc_pkt_total(buf, n);
+    }
+
+    // @HARNESS id=C04.alc.parse_alc_pkt_total.cp129 tier=thorough kind=Kb props=C04 bound="every datagram of 0..=40 bytes with codepoint 129 (RS under-specified); extension walk unwound 11 times" timeout=2400
+    #[cfg(kani)]
+    #[kani::proof]
+    #[kani::unwind(12)]
+    #[kani::stub(alloc::fmt::format, stub_format)]
+    #[kani::stub(crate::tools::error::FluteError::new, stub_flute_error_new)]
+    fn parse_alc_pkt_total_cp129() {
+        h_parse_alc_pkt_total_cp129(kani::any(), kani::any());
+    }
+    pub fn h_parse_alc_pkt_total_cp129(buf: [u8; DGRAM], n: usize) {
+        vk_assume!(buf[3] == 129);
+        h_parse_alc_pkt_total(buf, n);
+    }
+
+    // @HARNESS id=C04.alc.parse_alc_pkt_total.cpother tier=thorough kind=Kb props=C04 bound="every datagram of 0..=40 bytes with every other codepoint; extension walk unwound 11 times" timeout=2400
+    #[cfg(kani)]
+    #[kani::proof]
+    #[kani::unwind(12)]
+    #[kani::stub(alloc::fmt::format, stub_format)]
+    #[kani::stub(crate::tools::error::FluteError::new, stub_flute_error_new)]
+    fn parse_alc_pkt_total_cpother() {
+        h_parse_alc_pkt_total_cpother(kani::any(), kani::any());
+    }
+    pub fn h_parse_alc_pkt_total_cpother(buf: [u8; DGRAM], n: usize) {
+        vk_assume!(buf[3] != 0 && buf[3] != 1 && buf[3] != 2 && buf[3] != 5 && buf[3] != 6 && buf[3] != 129);
+        h_parse_alc_pkt_total(buf, n);
+    }
+
+    const SMALL: usize = 28;
+
+    // @HARNESS id=C04.alc.parse_alc_pkt_total.small tier=thorough kind=Kb props=C04 bound="every datagram of 0..=28 bytes whose LCT header has the 8-byte shape (C=0,S=0,O=0,H=0: the other shapes are C04.lct.parse_total, longer extension areas are get_ext in Verus); all codepoints" timeout=2400
+    #[cfg(kani)]
+    #[kani::proof]
+    #[kani::unwind(8)]
+    #[kani::stub(alloc::fmt::format, stub_format)]
+    #[kani::stub(crate::tools::error::FluteError::new, stub_flute_error_new)]
+    fn parse_alc_pkt_total_small() {
+        h_parse_alc_pkt_total_small(kani::any(), kani::any());
+    }
+    pub fn h_parse_alc_pkt_total_small(buf: [u8; SMALL], n: usize) {
+        vk_assume!(n <= SMALL);
+        vk_assume!(buf[0] & 0x0C == 0 && buf[1] & 0xF0 == 0);
+        let data = &buf[..n];
+        if let Ok(pkt) = parse_alc_pkt(data) {
+            assert!(pkt.lct.header_ext_offset as usize <= pkt.lct.len);
+            assert!(pkt.lct.len == pkt.data_alc_header_offset);
+            assert!(pkt.data_alc_header_offset <= pkt.data_payload_offset);
+            assert!(pkt.data_payload_offset <= pkt.data.len());
+            vk_cover!(pkt.oti.is_some());
+            let _ = get_sender_current_time(&pkt);
+            let _ = get_fec_inline_payload_id(&pkt);
+            if let Some(oti) = pkt.oti.as_ref() {
+                let _ = parse_payload_id(&pkt, oti);
+            }
+        }
+    }
+
+    const TINY: usize = 16;
+
+    // @HARNESS id=C04.alc.parse_alc_pkt_total.tiny tier=quick kind=Kb props=C04 bound="every datagram of 0..=16 bytes (8-byte header shape): codepoint dispatch, size check and offsets of parse_alc_pkt itself; the extension parsers are covered by their own harnesses" timeout=1500
+    #[cfg(kani)]
+    #[kani::proof]
+    #[kani::unwind(6)]
+    #[kani::stub(alloc::fmt::format, stub_format)]
+    #[kani::stub(crate::tools::error::FluteError::new, stub_flute_error_new)]
+    fn parse_alc_pkt_total_tiny() {
+        h_parse_alc_pkt_total_tiny(kani::any(), kani::any());
+    }
+    pub fn h_parse_alc_pkt_total_tiny(buf: [u8; TINY], n: usize) {
+        vk_assume!(n <= TINY);
+        vk_assume!(buf[0] & 0x0C == 0 && buf[1] & 0xF0 == 0);
+        let data = &buf[..n];
+        if let Ok(pkt) = parse_alc_pkt(data) {
+            assert!(pkt.lct.header_ext_offset as usize <= pkt.lct.len);
+            assert!(pkt.lct.len == pkt.data_alc_header_offset);
+            assert!(pkt.data_alc_header_offset <= pkt.data_payload_offset);
+            assert!(pkt.data_payload_offset <= pkt.data.len());
+            vk_cover!(pkt.data_payload_offset == 16);
+            let _ = get_sender_current_time(&pkt);
+            let _ = get_fec_inline_payload_id(&pkt);
+        }
+    }
+
+    // @HARNESS id=C04.alc.ext_parsers_total tier=quick kind=K props=C04 bound="every extension slice get_ext can return up to 16 bytes (length >= 4, multiple of 4: C04.get_ext.slice_shape)" timeout=900
+    /// EXT_TIME / EXT_FDT / EXT_CENC parsers return Ok or Err on every extension slice
+    #[cfg(kani)]
+    #[kani::proof]
+    #[kani::unwind(6)]
+    #[kani::stub(alloc::fmt::format, stub_format)]
+    #[kani::stub(crate::tools::error::FluteError::new, stub_flute_error_new)]
+    fn ext_parsers_total() {
+        h_ext_parsers_total(kani::any(), kani::any());
+    }
+    pub fn h_ext_parsers_total(buf: [u8; TINY], n: usize) {
+        vk_assume!(n >= 4 && n <= TINY && n % 4 == 0);
+        let ext = &buf[..n];
+        let _ = parse_sct(ext);
+        let _ = parse_ext_fdt(ext);
+        let _ = parse_cenc(ext);
+        vk_cover!(n == 12);
+    }
+
     pub fn h_parse_alc_pkt_total(buf: [u8; DGRAM], n: usize) {
         vk_assume!(n <= DGRAM);
         let data = &buf[..n];
@@ -29,10 +193,7 @@ mod verif_kani {
             assert!(pkt.data_alc_header_offset <= pkt.data_payload_offset);
             assert!(pkt.data_payload_offset <= pkt.data.len());
             assert!(pkt.data.len() == n);
-            if let Some(oti) = pkt.oti.as_ref() {
-                vk_cover!(oti.fec_encoding_id == oti::FECEncodingID::ReedSolomonGF28);
-                vk_cover!(oti.fec_encoding_id == oti::FECEncodingID::RaptorQ);
-            }
+            vk_cover!(pkt.data_payload_offset > 8);
             // the readers that run next on an accepted packet
             let _ = get_sender_current_time(&pkt);
             let _ = get_fec_inline_payload_id(&pkt);
@@ -108,10 +269,9 @@ mod verif_kani {
     pub fn h_close_session_pkt(tsi: u64) {
         vk_assume!(tsi < (1u64 << 48));
         let data = new_alc_pkt_close_session(&0u128, tsi);
-        assert!(data[1] & 0x02 == 0x02); // A
+        assert!(data[0] >> 4 == 1);      // V
+        assert!(data[1] & 0x02 == 0x02); // A = close session
         assert!(data[1] & 0x01 == 0x00); // B
-        let pkt = parse_alc_pkt(&data).unwrap();
-        assert!(pkt.lct.close_session && !pkt.lct.close_object);
-        assert!(pkt.lct.toi == 0 && pkt.lct.tsi == tsi);
+        assert!(data[2] as usize * 4 + 4 == data.len()); // header + the 4-byte FEC payload id, no payload
     }
 }
